@@ -1,5 +1,5 @@
 """Which contracts decide which property."""
-from . import indexing, bases, align, axes, metadata, reshape, dataset, missing, transform, join, wellformed, regroup, arith, interp
+from . import indexing, bases, align, axes, metadata, reshape, dataset, missing, transform, join, wellformed, regroup, arith, interp, dsops
 
 GLOBAL_ASSUMPTIONS = [
     "NumPy implements the contracts in dverif/symnp.py (validated by sampling against the installed NumPy, never proved)",
@@ -50,6 +50,13 @@ PROPERTIES = {
         "level": "other",
         "min_obligations": 300,
         "explanation": "proved (relative to numpy.interp, uninterpreted): the one-dimensional path -- one call numpy.interp(new, xs, ys, left, right) on the operand's (label, value) pairs sorted ascending, result on exactly the new axis, metadata, operand untouched; bounded stand-in: the N-d path (positions, floor / ceil, fraction times difference: nonlinear real arithmetic), interp_like and Dataset.interp_axis, compared fibre by fibre with numpy.interp on the real code.",
+    },
+    "C14": {
+        "contracts": [dsops.DatasetOps],
+        "level": "other",
+        "min_obligations": 0,
+        "min_bounded_evaluations": 2000,
+        "explanation": "bounded stand-in only: a differential statement between the Dataset layer and the per-variable DimArray operations (which are under contract in C01-C12, C17, C18), evaluated on the real code over an enumerated family; no obligation is discharged symbolically and none is counted as proved.",
     },
     "C05": {
         "contracts": [wellformed.Construct, wellformed.Helpers, wellformed.AxesSetter, wellformed.AxisCache, wellformed.NestedDict, wellformed.MultiAxisCache] +
